@@ -123,6 +123,29 @@ var descSwapSides bool
 
 var pairSideRE = regexp.MustCompile(`[A-Za-z]+(Pair|State)\.(a|b)$`)
 
+// descParamSubst: while the truth conditions of a predicate helper are described for one of
+// its call sites, its parameters are described by the arguments of that call.
+var descParamSubst = map[*ssa.Parameter]string{}
+
+// stdEqualFuncs: library predicates that treat their first two operands alike and hold only
+// for operands of equal length.
+func stdEqualName(f *ssa.Function) (name string, sameLen bool) {
+	if f == nil {
+		return "", false
+	}
+	n := rawShortName(f)
+	if i := strings.Index(n, "["); i > 0 {
+		n = n[:i]
+	}
+	switch n {
+	case "slices.Equal", "slices.EqualFunc", "bytes.Equal", "maps.Equal", "maps.EqualFunc":
+		return n, true
+	case "reflect.DeepEqual", "strings.EqualFold":
+		return n, false
+	}
+	return "", false
+}
+
 // descSymCallees: predicates already found symmetric (symmetry check only).
 var descSymCallees map[*ssa.Function]bool
 
@@ -137,6 +160,9 @@ func descValue(v ssa.Value, depth int) string {
 		}
 		return x.Value.ExactString()
 	case *ssa.Parameter:
+		if sub, ok := descParamSubst[x]; ok {
+			return sub
+		}
 		if l, ok := descParamLabel[x]; ok {
 			return l
 		}
@@ -227,6 +253,11 @@ func descCall(c *ssa.Call, depth int) string {
 	var args []string
 	for _, a := range com.Args {
 		args = append(args, descValue(a, depth+1))
+	}
+	if n, _ := stdEqualName(com.StaticCallee()); n != "" && descParamLabel != nil && len(args) >= 2 {
+		if args[0] > args[1] {
+			args[0], args[1] = args[1], args[0]
+		}
 	}
 	if f := com.StaticCallee(); f != nil && descSymCallees[f] && len(args) >= 2 {
 		// a predicate known to treat its two operands alike: one spelling of the call
@@ -369,6 +400,12 @@ func guardSetWithin(in ssa.Instruction, within map[*ssa.BasicBlock]bool) []strin
 		}
 		for k := range b.Succs {
 			if edgeDominates(b, k, in.Block()) {
+				if ex, ok := expandCond(i.Cond, k == 0); ok {
+					for _, d := range ex {
+						set[d] = true
+					}
+					continue
+				}
 				d := descCond(i.Cond, k == 0)
 				set[d] = true
 				if other, c, eq, ok := constCompare(i.Cond, k == 0); ok {
@@ -470,6 +507,14 @@ func orGuardSet(in ssa.Instruction) string {
 			return "*"
 		}
 	}
+	if len(alts) == 1 {
+		// one conditional edge that dominates the block: already part of the guard set
+		for _, e := range controllingEdges(b) {
+			if !isLoopCond(e.b) && edgeDominates(e.b, e.k, b) {
+				return ""
+			}
+		}
+	}
 	sort.Strings(alts)
 	return strings.Join(alts, " || ")
 }
@@ -558,4 +603,130 @@ func typeDesc(t types.Type) string {
 		return out
 	}
 	return "map[" + typeShort(m.Key()) + "{" + strings.Join(fl(kst), ",") + "}]" + typeShort(m.Elem())
+}
+
+// ---- predicate helpers seen through ----
+//
+// `if same(a, b) {` with a NEW module function same (one the audited tree does not have) is
+// the same decision as the tests of same written out at the call site.  For the taken-as-true edge of such a call the
+// controlling conditions are those under which the helper returns true (the
+// intersection over its true-capable returns), described with the call's arguments
+// in place of the parameters.  slices.Equal / EqualFunc / bytes.Equal / maps.Equal
+// hold only for operands of equal length; that is the part a written-out loop
+// shows too (the element tests inside a loop do not dominate what follows it).
+
+var expandDepth int
+
+func expandCond(cond ssa.Value, val bool) ([]string, bool) {
+	c, neg := stripNot(cond)
+	if neg {
+		val = !val
+	}
+	call, ok := c.(*ssa.Call)
+	if !ok || !val || expandDepth >= 2 || descParamLabel != nil {
+		return nil, false
+	}
+	f := call.Common().StaticCallee()
+	if f == nil {
+		return nil, false
+	}
+	if _, sameLen := stdEqualName(f); sameLen && len(call.Common().Args) >= 2 {
+		x, y := descValue(call.Common().Args[0], 1), descValue(call.Common().Args[1], 1)
+		if x > y {
+			x, y = y, x
+		}
+		return []string{"len(" + x + ") == len(" + y + ")"}, true
+	}
+	if !isModFunc(f) || f.Parent() != nil || f.Synthetic != "" || len(f.Blocks) == 0 || len(f.Blocks) > 40 {
+		return nil, false
+	}
+	// a function of the audited tree is a named decision of its own (the rows name it);
+	// only a helper that did not exist there is looked through
+	if auditedFnNames == nil || auditedFnNames[shortName(f)] {
+		return nil, false
+	}
+	res := f.Signature.Results()
+	if res.Len() != 1 {
+		return nil, false
+	}
+	if b, ok := res.At(0).Type().Underlying().(*types.Basic); !ok || b.Kind() != types.Bool {
+		return nil, false
+	}
+	if len(f.Params) != len(call.Common().Args) {
+		return nil, false
+	}
+	// only pure tests: a helper that calls module functions with effects is a decision of its own
+	for _, b := range f.Blocks {
+		for _, in := range b.Instrs {
+			switch in.(type) {
+			case *ssa.Store, *ssa.MapUpdate, *ssa.Send, *ssa.Go, *ssa.Defer, *ssa.Panic:
+				return nil, false
+			}
+		}
+	}
+	saved := map[*ssa.Parameter]string{}
+	for i, pa := range f.Params {
+		if old, had := descParamSubst[pa]; had {
+			saved[pa] = old
+		}
+		descParamSubst[pa] = descValue(call.Common().Args[i], 1)
+	}
+	expandDepth++
+	defer func() {
+		expandDepth--
+		for _, pa := range f.Params {
+			if old, had := saved[pa]; had {
+				descParamSubst[pa] = old
+			} else {
+				delete(descParamSubst, pa)
+			}
+		}
+	}()
+	var common map[string]bool
+	n := 0
+	for _, b := range f.Blocks {
+		if len(b.Instrs) == 0 {
+			continue
+		}
+		ret, ok := b.Instrs[len(b.Instrs)-1].(*ssa.Return)
+		if !ok {
+			continue
+		}
+		v := ret.Results[0]
+		if bv, isC := constBool(v); isC && !bv {
+			continue
+		}
+		cs := map[string]bool{}
+		for _, d := range guardSetWithin(ret, nil) {
+			cs[d] = true
+		}
+		if _, isC := constBool(v); !isC {
+			if ex, ok := expandCond(v, true); ok {
+				for _, d := range ex {
+					cs[d] = true
+				}
+			} else {
+				cs[descCond(v, true)] = true
+			}
+		}
+		n++
+		if common == nil {
+			common = cs
+		} else {
+			for d := range common {
+				if !cs[d] {
+					delete(common, d)
+				}
+			}
+		}
+	}
+	if n == 0 {
+		return nil, false
+	}
+	var out []string
+	for d := range common {
+		out = append(out, d)
+	}
+	sort.Strings(out)
+	return out, true
 }
